@@ -2,6 +2,7 @@ pub mod c01;
 pub mod c04;
 pub mod c05;
 pub mod c06;
+pub mod c07;
 
 use crate::runner::{load_replay, run_replay_tier, Ctx, Outcome};
 use serde_json::Value;
@@ -14,6 +15,7 @@ fn table(id: &str) -> Option<(Run, Judge, &'static str, &'static [&'static str])
         "C01" => Some((c01::run, c01::judge, c01::RULE, c01::ASSUMPTIONS)),
         "C04" => Some((c04::run, c04::judge, c04::RULE, c04::ASSUMPTIONS)),
         "C05" => Some((c05::run, c05::judge, c05::RULE, c05::ASSUMPTIONS)),
+        "C07" => Some((c07::run, c07::judge, c07::RULE, c07::ASSUMPTIONS)),
         "C06" => Some((c06::run, c06::judge, c06::RULE, c06::ASSUMPTIONS)),
         _ => None,
     }
